@@ -1,11 +1,82 @@
 import NanoVerif.Proofs.Objective
 import NanoVerif.Proofs.Reduce
+import NanoVerif.Proofs.ObjectiveIter
 /-!
   C09 — ML objectives equal their definitions for any thread count and batch size.
 
-  Property theorems about `Model/Objective.lean` (the model of `src/linear/function.cpp`, `src/linear/accumulator.cpp`,
-  `src/linear/util.cpp`, `src/gboost/function.cpp`, `src/gboost/accumulator.cpp`, `include/nano/core/reduce.h` and the
-  chunking of `pool_t::map` / `*_iterator_t::loop`), in exact arithmetic: `α` is any linear ordered field.
+  Property theorems about `Model/Objective.lean` + `Model/ObjectiveIter.lean` (the model of `src/linear/function.cpp`,
+  `src/linear/accumulator.cpp`, `src/linear/util.cpp`, `src/gboost/function.cpp`, `src/gboost/accumulator.cpp`,
+  `include/nano/core/reduce.h`, the chunking of `pool_t::map`) and `Model/Iterator.lean` (the model of
+  `src/dataset/iterator.cpp`, `include/nano/dataset/iterator.h` and the `make_*_stats` loops of `src/dataset/stats.cpp`, on top
+  of the C14 scaling model `Model/Scaling.lean`); the objectives in exact arithmetic (`α` any linear ordered field), the
+  iterator theorems for EVERY scalar type (they are about which cells go where, so they hold at `Float` too).
+
+  ## Gap table (gap-closing round): every function of the anchored files
+
+  `modelled` = executable Lean definition, run in `driver_c09` against the code; `outside` = not needed by the statement.
+
+  src/dataset/iterator.cpp + include/nano/dataset/iterator.h
+    features_per_thread, select_iterator_t (ctor, 12 `loop`s)      outside  (feature-selection models: the weak learners, C10)
+    base_dataset_iterator_t::concurrency / dataset / map           modelled `Iter.workers`; `map` = `Objective.chunks` + schedule `asg`
+    targets_iterator_t::targets_iterator_t                         modelled `Iter.make` (`makeStats … D.enT D.targ`; no-target branch outside)
+    targets_iterator_t::targets(tensor4d_map_t)                    modelled `scaleRows` (C14 `scaleRow`, NaN → 0)
+    targets_iterator_t::targets(tnum, range)                       modelled `Iter.serveT` (cached / uncached, `assert(tnum < …)`)
+    targets_iterator_t::cache_targets                              modelled `Iter.cacheTargets` (budget, no reset, `fillCache`)
+    targets_iterator_t::batch / scaling (setters + getters)        modelled `Iter.setBatch` / `Iter.setScaling`, fields
+    targets_iterator_t::samples / targets_stats                    modelled fields `samples`, `tstats` (dumped and compared)
+    targets_iterator_t::loop                                       modelled `Iter.loopT`
+    flatten_iterator_t::flatten_iterator_t                         modelled `Iter.make` (`makeStats … D.enF D.flat`)
+    flatten_iterator_t::flatten(tensor2d_map_t) / (tnum, range)    modelled `scaleRows` / `Iter.serveF`
+    flatten_iterator_t::cache_flatten                              modelled `Iter.cacheFlatten` (reset, budget, `fillCache`);
+                                                                   the `catch (...)` (only `std::bad_alloc` can reach it) outside
+    flatten_iterator_t::loop ×2, flatten_stats                     modelled `Iter.loopFT`, `Iter.loopF`, field `fstats`
+    m_flatten_buffers / m_targets_buffers [tnum]                   scratch: written and read inside one chunk by worker `tnum`;
+                                                                   only the guard is modelled; races are outside (TSan, C18)
+  src/dataset/stats.cpp
+    nan2zero, ::update, ::done, scalar_stats_t ctor, scale ×2      modelled by C14 (`Scaling.nan2zero/Acc.push/finalize/Acc.init/scaleRow`), imported
+    make_flatten_stats / make_targets_stats                        modelled `statsAcc`, `makeStats` (THEIR batching) = `defStats` (proved)
+    make_feature_stats, upscale ×3, make_scaling, make_*_features,
+    xclass_stats_t::*, alloc/update/done(xclass)                   outside  (C14 / C10; not used by the four objectives)
+  src/linear/function.cpp
+    isize / tsize / function_t ctor                                modelled `linearSize`, the two asserts (`linearVGradIter` guards); the
+                                                                   convex / smooth / strong-convexity flags are C06's (Gen/Flags)
+    clone                                                          outside  (C18 / C19)
+    do_vgrad                                                       modelled `linearVGrad` (+ `linearVGradIter` on the iterator),
+                                                                   value-only branch `gx.size() == 0`: `linearValue`; `weights(x)` /
+                                                                   `bias(x)`: `unpackW` / `unpackB`
+  src/linear/accumulator.cpp   ctor, clear, +=, /=                 modelled `LinAcc.zero/add/divN` (m_outputs/m_values/m_vgrads: scratch)
+  src/linear/util.cpp
+    predict ×2                                                     modelled `predict`
+    evaluate                                                       outside  (loss.error; same loop as `Iter.loopFT` with scaling none)
+    feature_importance, sparsity_ratio, make_param_space           outside  (reporting / tuning: C11, C13)
+  src/gboost/function.cpp
+    ::clear                                                        modelled `List.replicate workers GbAcc.zero` in `mapReduce`
+    scale_function_t ctor / clone                                  outside  (flags: C06; the ctor's dims asserts are never violated by the harness)
+    scale_function_t::do_vgrad                                     modelled `scaleVGrad`, `scaleVGradIter` (any number of groups incl. 1; unassigned ⇒ scale 0)
+    bias_function_t ctor / clone / do_vgrad                        outside / outside / modelled `biasVGrad`, `biasVGradIter`
+    grads_function_t ctor / clone / do_vgrad / gradients           outside / outside / modelled `gradsVGrad`, `gradsVGradIter` (`loss(target, output)` order)
+  src/gboost/accumulator.cpp   ctor, clear, +=, /=, update, vgrad  modelled `GbAcc.zero/add/divN/update/vgrad`
+  include/nano/core/reduce.h
+    sum_reduce                                                     modelled `sumReduce` (+ `Model/Reduce.lean`, op family `reduce sum`)
+    min_reduce, min_reduce_feature                                 modelled in `Model/Reduce.lean` (C10's use; theorems in `Proofs/Reduce.lean`)
+  include/nano/core/parallel.h
+    pool_t::map(elements, chunksize, op)                           modelled `chunks` + an ARBITRARY schedule `asg` (observed through hook H1)
+    queue_t, worker_t, section_t, pool_t ctor/enqueue/size, map/1  outside  (the pool protocol is C17's model)
+
+  Contracts that remain parameters of the model
+    the loss (`L i o`, `loss tg o`: arbitrary functions)           C06's subject; the harness dumps the library's values, the python oracle has own kernels
+    `Data.flat s` / `Data.targ s` (raw rows of a stored sample)    PROVED for the C08 dataset model: `flatten_samplewise`, `flatten_slice`, `targets_samplewise`,
+                                                                   `data_flat_is_dataset_flatten` (`Proofs/IteratorDataset.lean`); monitored at run time: the python oracle
+                                                                   recomputes everything served from ONE whole-list `dataset.flatten(samples)` dump
+    schedule `asg`                                                 every schedule (theorems); the observed one (driver)
+
+  Hypotheses of the property theorems, re-examined
+    `ValidAsg`, `0 < batch`, `0 < workers`       the code's asserts; error branches covered (`*_none_of_*`)
+    `0 ≤ l1, l2`, `sqrt l2 ² = l2`               parameter domain of the library (`linear::l1reg/l2reg ≥ 0`)
+    `Data.WF` (rows have `columns()` cells)      C08 `columns_total`; `mapM_scaleRow_none` shows what happens otherwise (the size assert)
+    `Iter.Fresh` (no stale cache)                NECESSARY: `stale_cache_witness` (kernel-checked, replayed on the real classes by corpus/C09);
+                                                 guaranteed by the library's call order: `fresh_configure_then_cache`
+    no `_partial` theorem.
 
   Quantifiers of every `*_eq_def` theorem: every number of samples `n`, every batch size `batch ≥ 1`, every number of
   workers `≥ 1`, **every** assignment `asg` of the chunks to existing workers (`ValidAsg`: one worker per chunk — the
@@ -14,13 +85,17 @@ import NanoVerif.Proofs.Reduce
   `∃ out, <modelled computation> = some out ∧ out = <naive definition>`: the computation does not hit an assert and its
   result is the plain per-sample definition. A batch that is dropped or counted twice under some partition, an
   accumulator that is skipped or added twice by `sum_reduce`, a division by anything but the number of samples would
-  contradict them.
+  contradict them. The `*_end_to_end` theorems restate them from the RAW dataset: the definition is evaluated on
+  `nan2zero (scale mode stats (flatten raw))` with the C14 statistics of the raw columns, the computation runs on the
+  iterator object after any configuration history.
 
   (`n = 0` is not excluded: both sides are then `0 / 0`, which is `0` in a Lean field and NaN in C++; the property is
   about `n ≥ 1`.)
 
   Also in `Proofs/ObjectiveSkeleton.lean` (listed as obligations): `chunks_tile`, `mapReduce_eq`, `fillChunks_chunks`,
-  `runChunks_none_of_bad_worker`, `mapReduce_none_of_batch_zero`, `mapReduce_none_of_no_worker`.
+  `runChunks_none_of_bad_worker`, `mapReduce_none_of_batch_zero`, `mapReduce_none_of_no_worker`; in `Proofs/Iterator*.lean`:
+  `chunks_tiles`, `tiles_flatten`, `makeStats_eq_defStats`, `computeRows_eq`, `fillCache_eq`, `loopWith_eq`, `inv_make`, `inv_step`,
+  `inv_run`, `fresh_step`, `fresh_configure_then_cache`.
 -/
 set_option linter.unusedSectionVars false
 set_option linter.unusedVariables false
@@ -340,5 +415,470 @@ example : mapReduce (· + ·) 0 (fun a n => a / n) (fun a b e => a + msum (· + 
     3 5 0 [] = none := by decide
 -- the slice-writing loop overwrites stale contents
 example : fillChunks (fun i => i * 10) [7, 7, 7, 7, 7] (chunks 5 2) = [0, 10, 20, 30, 40] := by decide
+
+end NanoVerif.Objective
+
+/-! ## the iterators: what is served is the scaled flattened data, for every batch, schedule, cache state
+
+  Every scalar type (no field structure is needed: these are statements about which cells are read, in which order the
+  statistics see them and which rows go where; they hold at `Float` as well). -/
+namespace NanoVerif.Iterator
+open NanoVerif.Scaling NanoVerif.Objective
+
+section iter
+variable {α : Type} [Add α] [Sub α] [Mul α] [Div α] [Neg α] [LT α] [DecidableLT α]
+  [OfNat α 0] [OfNat α 1] [NatCast α]
+
+/-- **statistics**: `make_flatten_stats` / `make_targets_stats`, run in batches of ANY size `≥ 1`, return for every column the
+    C14 statistics (`Scaling.columnStats`: count, min, max, mean, stdev, ε-guarded `div/mul` pairs, enable mask) of that
+    column's cells over the iterator's samples in sample order — every sample once, no stale buffer row, whatever the
+    remainder `n mod batch` -/
+theorem stats_batch_independent [Sqrt α] (hi lo eps : α) (en : List Bool) (rowOf : Nat → List (Option α))
+    (samples : List Nat) (sb sb' : Nat) (h : 0 < sb) (h' : 0 < sb') (hrows : ∀ s ∈ samples, (rowOf s).length = en.length) :
+    makeStats hi lo eps en rowOf samples sb = makeStats hi lo eps en rowOf samples sb' ∧
+    ∀ c, c < en.length → (makeStats hi lo eps en rowOf samples sb)[c]?
+      = some (columnStats hi lo eps (en.getD c false) (columnOf rowOf samples c)) := by
+  rw [makeStats_eq_defStats hi lo eps en rowOf samples sb h hrows, makeStats_eq_defStats hi lo eps en rowOf samples sb' h' hrows]
+  refine ⟨rfl, ?_⟩
+  intro c hc
+  simp [defStats, hc]
+
+/-- the cells of the definition's data: cell `(i, j)` is `scaleCell mode stats_j (raw cell)` — C14's `(x − c)·d` followed by
+    `nan2zero`, a missing cell is served as `0`, a categorical column (disabled statistics) is left as it is -/
+theorem scaled_cell_spec [FinTest α] (m : Mode) (ss : List (Stats α)) (rowOf : Nat → List (Option α)) (samples : List Nat)
+    (i j : Nat) (s : Nat) (st : Stats α) (x : Option α) (hs : samples[i]? = some s) (hst : ss[j]? = some st)
+    (hx : (rowOf s)[j]? = some x) :
+    ((scaledAll m ss rowOf samples)[i]?.bind fun r => r[j]?) = some (scaleCell m st x) ∧ scaleCell m st none = 0 := by
+  refine ⟨?_, rfl⟩
+  simp [scaledAll, hs, List.getElem?_zipWith, hst, hx]
+
+/-- **`served_eq_scaled_flatten`**: take the iterator built over `samples` (statistics batches `sbF, sbT ≥ 1`), configure it
+    by ANY history of `batch` / `scaling` / `cache_flatten(max_bytes)` / `cache_targets(max_bytes)` calls that leaves no stale
+    cache (`Fresh`; see `fresh_configure_then_cache`, `stale_cache_witness`), and loop with any batch `≥ 1` and any schedule
+    `asg` (one existing worker per chunk). Then the callback is called exactly once per chunk of `map(n, batch)`, in queue
+    order, by the scheduled worker, with rows `[b, e)` of
+
+        X = nan2zero (scale mode stats (flatten D samples)),   T = the same for the targets,
+
+    where `stats` are the C14 statistics of the raw flattened samples (independent of `sbF`, `sbT`) — whether the cache was
+    filled, refused for lack of budget, or never requested; and the blocks concatenated are `X` and `T`: every sample
+    exactly once. -/
+theorem served_eq_scaled_flatten [Sqrt α] [FinTest α] (hi lo eps : α) (D : Data α) (samples : List Nat)
+    (workers sbF sbT : Nat) (hF : 0 < sbF) (hT : 0 < sbT) (hwf : D.WF samples) (junk : List α) (cfgs : List Cfg) (it : Iter α)
+    (hrun : Iter.run D junk (Iter.make hi lo eps D samples workers sbF sbT) cfgs = some it) (hfresh : it.Fresh)
+    (hb : 0 < it.batch) (asg : List Nat) (hasg : ValidAsg it.workers samples.length it.batch asg) :
+    ∃ served, it.loopFT D asg = some served ∧
+      served = List.zipWith (mkServed (scaledInputs hi lo eps D samples it.mode) (scaledTargets hi lo eps D samples it.mode))
+        (chunks samples.length it.batch) asg ∧
+      (served.map Served.inputs).flatten = scaledInputs hi lo eps D samples it.mode ∧
+      (served.map Served.targets).flatten = scaledTargets hi lo eps D samples it.mode := by
+  have hinv := inv_run hi lo eps D samples junk cfgs _ it (inv_make hi lo eps D samples workers sbF sbT hF hT hwf) hrun
+  refine ⟨_, loopFT_eq hi lo eps D samples it hinv hb asg hasg, ?_, ?_⟩
+  · rw [servedX_eq hi lo eps D samples it hinv hfresh, servedT_eq hi lo eps D samples it hinv hfresh]
+  · rw [servedX_eq hi lo eps D samples it hinv hfresh, servedT_eq hi lo eps D samples it hinv hfresh]
+    exact served_concat _ _ samples.length it.batch hb asg hasg.1 (length_scaledInputs ..) (length_scaledTargets ..)
+
+/-- the same for the targets-only loop of `targets_iterator_t` (used by the three gradient-boosting objectives) -/
+theorem served_targets_eq_scaled [Sqrt α] [FinTest α] (hi lo eps : α) (D : Data α) (samples : List Nat)
+    (workers sbF sbT : Nat) (hF : 0 < sbF) (hT : 0 < sbT) (hwf : D.WF samples) (junk : List α) (cfgs : List Cfg) (it : Iter α)
+    (hrun : Iter.run D junk (Iter.make hi lo eps D samples workers sbF sbT) cfgs = some it) (hfresh : it.Fresh)
+    (hb : 0 < it.batch) (asg : List Nat) (hasg : ValidAsg it.workers samples.length it.batch asg) :
+    ∃ served, it.loopT D asg = some served ∧
+      served = List.zipWith (mkServed [] (scaledTargets hi lo eps D samples it.mode)) (chunks samples.length it.batch) asg ∧
+      (served.map Served.targets).flatten = scaledTargets hi lo eps D samples it.mode := by
+  have hinv := inv_run hi lo eps D samples junk cfgs _ it (inv_make hi lo eps D samples workers sbF sbT hF hT hwf) hrun
+  refine ⟨_, loopT_eq hi lo eps D samples it hinv hb asg hasg, ?_, ?_⟩
+  · rw [servedT_eq hi lo eps D samples it hinv hfresh]
+  · rw [servedT_eq hi lo eps D samples it hinv hfresh]
+    have hc := tiles_flatten (scaledTargets hi lo eps D samples it.mode) _ 0 samples.length
+      (chunks_tiles samples.length it.batch hb)
+    rw [List.map_zipWith]
+    have hz := zipWith_map_left (γ := Nat)
+      (fun c : Nat × Nat => sliceOf (scaledTargets hi lo eps D samples it.mode) c.1 c.2) (chunks samples.length it.batch) asg hasg.1
+    simp only [mkServed]
+    rw [hz, hc]
+    have := sliceOf_full (scaledTargets hi lo eps D samples it.mode)
+    rwa [length_scaledTargets] at this
+
+/-- the inputs-only loop (`linear_t::do_predict`) -/
+theorem served_inputs_eq_scaled [Sqrt α] [FinTest α] (hi lo eps : α) (D : Data α) (samples : List Nat)
+    (workers sbF sbT : Nat) (hF : 0 < sbF) (hT : 0 < sbT) (hwf : D.WF samples) (junk : List α) (cfgs : List Cfg) (it : Iter α)
+    (hrun : Iter.run D junk (Iter.make hi lo eps D samples workers sbF sbT) cfgs = some it) (hfresh : it.Fresh)
+    (hb : 0 < it.batch) (asg : List Nat) (hasg : ValidAsg it.workers samples.length it.batch asg) :
+    it.loopF D asg = some (List.zipWith (mkServed (scaledInputs hi lo eps D samples it.mode) [])
+      (chunks samples.length it.batch) asg) := by
+  have hinv := inv_run hi lo eps D samples junk cfgs _ it (inv_make hi lo eps D samples workers sbF sbT hF hT hwf) hrun
+  rw [loopF_eq hi lo eps D samples it hinv hb asg hasg, servedX_eq hi lo eps D samples it hinv hfresh]
+
+/-- **cached = uncached**: after a successful `cache_flatten` + `cache_targets` a loop serves exactly what the same iterator
+    serves without any cache (same mode, same batch or any other batch, any two schedules) -/
+theorem cached_eq_uncached [Sqrt α] [FinTest α] (hi lo eps : α) (D : Data α) (samples : List Nat)
+    (itc itu : Iter α) (hc : itc.Inv hi lo eps D samples) (hu : itu.Inv hi lo eps D samples)
+    (hfc : itc.Fresh) (hfu : itu.Fresh) (hm : itc.mode = itu.mode) :
+    itc.servedX D = itu.servedX D ∧ itc.servedT D = itu.servedT D := by
+  rw [servedX_eq hi lo eps D samples itc hc hfc, servedX_eq hi lo eps D samples itu hu hfu,
+    servedT_eq hi lo eps D samples itc hc hfc, servedT_eq hi lo eps D samples itu hu hfu, hm]
+  exact ⟨rfl, rfl⟩
+
+/-- **the budget**: `cache_flatten(max_bytes)` with `8·n·columns > max_bytes` reports `false` and leaves the iterator on the
+    uncached path (the cache is emptied first); with enough budget, a batch `≥ 1` and a valid schedule it reports `true` and
+    the cache holds the scaled matrix of all the samples under the current mode, whatever the fresh tensor held -/
+theorem cache_flatten_spec [FinTest α] (it : Iter α) (D : Data α) (maxBytes : Int) (asg : List Nat) (junk : List α) :
+    (maxBytes < ((8 * it.samples.length * D.cols : Nat) : Int) →
+      it.cacheFlatten D maxBytes asg junk = some ({ it with fcache := [] }, false)) ∧
+    (((8 * it.samples.length * D.cols : Nat) : Int) ≤ maxBytes → 0 < it.batch →
+      ValidAsg it.workers it.samples.length it.batch asg → (∀ s ∈ it.samples, (D.flat s).length = it.fstats.length) →
+      it.cacheFlatten D maxBytes asg junk
+        = some ({ it with fcache := scaledAll it.mode it.fstats D.flat it.samples, fmode := it.mode }, true)) := by
+  constructor
+  · intro h
+    unfold Iter.cacheFlatten
+    simp only
+    rw [if_neg (by omega)]
+  · intro h hb hasg hrows
+    unfold Iter.cacheFlatten
+    simp only
+    rw [if_pos h, if_neg (by omega), fill_total it.mode it.fstats D.flat it.samples hrows it.workers it.batch hb asg hasg junk]
+
+/-- `cache_targets(max_bytes)` does NOT empty `m_targets` first: with too small a budget it reports `false` and the iterator is
+    unchanged — a cache filled earlier stays in use -/
+theorem cache_targets_spec [FinTest α] (it : Iter α) (D : Data α) (maxBytes : Int) (asg : List Nat) (junk : List α) :
+    (maxBytes < ((8 * it.samples.length * D.tcols : Nat) : Int) → it.cacheTargets D maxBytes asg junk = some (it, false)) ∧
+    (((8 * it.samples.length * D.tcols : Nat) : Int) ≤ maxBytes → 0 < it.batch →
+      ValidAsg it.workers it.samples.length it.batch asg → (∀ s ∈ it.samples, (D.targ s).length = it.tstats.length) →
+      it.cacheTargets D maxBytes asg junk
+        = some ({ it with tcache := scaledAll it.mode it.tstats D.targ it.samples, tmode := it.mode }, true)) := by
+  constructor
+  · intro h
+    unfold Iter.cacheTargets
+    simp only
+    rw [if_neg (by omega)]
+  · intro h hb hasg hrows
+    unfold Iter.cacheTargets
+    simp only
+    rw [if_pos h, if_neg (by omega), fill_total it.mode it.tstats D.targ it.samples hrows it.workers it.batch hb asg hasg junk]
+
+/-- error branches: `assert(chunksize >= 1)` and `assert(tnum < m_flatten_buffers.size())` -/
+theorem loop_none_of_batch_zero [FinTest α] (it : Iter α) (D : Data α) (asg : List Nat) (h : it.batch = 0) :
+    it.loopFT D asg = none ∧ it.loopF D asg = none ∧ it.loopT D asg = none := by
+  simp [Iter.loopFT, Iter.loopF, Iter.loopT, h]
+
+theorem serve_none_of_bad_worker [FinTest α] (it : Iter α) (D : Data α) (tnum b e : Nat) (h : it.workers ≤ tnum)
+    (hf : it.fcached = false) (ht : it.tcached = false) : it.serveF D tnum b e = none ∧ it.serveT D tnum b e = none := by
+  have : ¬ tnum < it.workers := by omega
+  simp [Iter.serveF, Iter.serveT, hf, ht, this]
+
+/-- the same at binary64: instantiated at `Float` (IEEE operations, `std::sqrt`, `std::isfinite`), the theorem says that every
+    configuration — any batch, schedule, pool size, cache filled / refused / absent, any statistics batches — hands out
+    BIT-IDENTICAL values (the harness checks exactly this with a hash of what every configuration serves) -/
+theorem served_bit_identical_float [NatCast Float] (hi lo eps : Float) (D : Data Float) (samples : List Nat)
+    (workers sbF sbT workers' sbF' sbT' : Nat) (hF : 0 < sbF) (hT : 0 < sbT) (hF' : 0 < sbF') (hT' : 0 < sbT')
+    (hwf : D.WF samples) (junk junk' : List Float) (cfgs cfgs' : List Cfg) (it it' : Iter Float)
+    (hrun : Iter.run D junk (Iter.make hi lo eps D samples workers sbF sbT) cfgs = some it)
+    (hrun' : Iter.run D junk' (Iter.make hi lo eps D samples workers' sbF' sbT') cfgs' = some it')
+    (hfresh : it.Fresh) (hfresh' : it'.Fresh) (hm : it.mode = it'.mode)
+    (hb : 0 < it.batch) (hb' : 0 < it'.batch) (asg asg' : List Nat)
+    (hasg : ValidAsg it.workers samples.length it.batch asg) (hasg' : ValidAsg it'.workers samples.length it'.batch asg') :
+    ∃ served served', it.loopFT D asg = some served ∧ it'.loopFT D asg' = some served' ∧
+      (served.map Served.inputs).flatten = (served'.map Served.inputs).flatten ∧
+      (served.map Served.targets).flatten = (served'.map Served.targets).flatten := by
+  obtain ⟨sv, h1, _, h3, h4⟩ := served_eq_scaled_flatten hi lo eps D samples workers sbF sbT hF hT hwf junk cfgs it hrun hfresh hb asg hasg
+  obtain ⟨sv', h1', _, h3', h4'⟩ := served_eq_scaled_flatten hi lo eps D samples workers' sbF' sbT' hF' hT' hwf junk' cfgs' it' hrun'
+    hfresh' hb' asg' hasg'
+  exact ⟨sv, sv', h1, h1', by rw [h3, h3', hm], by rw [h4, h4', hm]⟩
+
+end iter
+
+/-! ### the hypothesis `Fresh` is necessary: a kernel-checked history on which the cached path serves stale data
+
+  Scalars `Int` (`sqrt := id`, every value finite). One column, two samples with values `1, 2`; `cache_flatten` under
+  `scaling_type::none`, then `scaling(minmax)`: the loop serves the cached `[[1], [2]]`, the uncached path of the very same
+  iterator state would serve `[[0], [1]]`. Replayed on the real classes by the corpus op `iter hist … stale` (corpus/C09). -/
+
+def wD : Data Int := ⟨fun s => [some ((s : Int) + 1)], fun s => [some ((s : Int) + 1)], [true], [true]⟩
+
+theorem stale_cache_witness :
+    letI : Sqrt Int := ⟨id⟩
+    letI : FinTest Int := ⟨fun _ => true⟩
+    ∃ it : Iter Int,
+      Iter.run wD [] (Iter.make 1000 (-1000) 0 wD [0, 1] 1 1000 1000) [.batch 2, .cacheF 1000 [0], .scaling .minmax] = some it ∧
+      ¬ it.Fresh ∧
+      (it.loopF wD [0]).map (fun l => l.map Served.inputs) = some [[[1], [2]]] ∧
+      scaledInputs 1000 (-1000) 0 wD [0, 1] it.mode = [[0], [1]] := by
+  letI : Sqrt Int := ⟨id⟩
+  letI : FinTest Int := ⟨fun _ => true⟩
+  refine ⟨_, rfl, ?_, by decide, by decide⟩
+  intro h
+  have := h.1 (by decide)
+  revert this
+  decide
+
+-- the hypotheses are satisfiable: a well-formed dataset, a history in library order, a fresh cached iterator
+example : wD.WF [0, 1] := ⟨by decide, by decide⟩
+example :
+    letI : Sqrt Int := ⟨id⟩
+    letI : FinTest Int := ⟨fun _ => true⟩
+    ∃ it : Iter Int, Iter.run wD [] (Iter.make 1000 (-1000) 0 wD [0, 1] 2 1 1000)
+        [.batch 1, .scaling .minmax, .cacheF 1000 [1, 0], .cacheT 1000 [0, 0]] = some it ∧
+      it.fcache = [[0], [1]] ∧ ValidAsg it.workers 2 it.batch [1, 1] ∧
+      (it.loopFT wD [1, 1]).map (fun l => l.map Served.inputs) = some [[[0]], [[1]]] := by
+  letI : Sqrt Int := ⟨id⟩
+  letI : FinTest Int := ⟨fun _ => true⟩
+  exact ⟨_, rfl, by decide, by decide, by decide⟩
+-- a too small budget leaves the iterator uncached; `cache_targets` then keeps an older cache
+example :
+    letI : Sqrt Int := ⟨id⟩
+    letI : FinTest Int := ⟨fun _ => true⟩
+    ((Iter.make 1000 (-1000) 0 wD [0, 1] 1 1 1).cacheFlatten wD 15 [0] []).map (fun p => (p.1.fcached, p.2))
+      = some (false, false) := by
+  letI : Sqrt Int := ⟨id⟩
+  letI : FinTest Int := ⟨fun _ => true⟩
+  decide
+
+end NanoVerif.Iterator
+
+/-! ## end to end: the objectives on the raw dataset
+
+  `loss tg o` / `dloss tg o`: loss value / gradient w.r.t. the outputs for one (scaled) target row. The objective is run on
+  the iterator (`linearVGradIter` …: ONE loop with the schedule `asg` feeds the callback, which reads row `i − begin` of its
+  block); the definition is evaluated on `scaledInputs` / `scaledTargets` — `nan2zero (scale mode stats (flatten raw))` with
+  the C14 statistics of the raw data — so nothing is "taken as served". -/
+namespace NanoVerif.Objective
+open NanoVerif.Iterator NanoVerif.Scaling
+variable {α : Type} [Field α] [LinearOrder α] [IsStrictOrderedRing α] [Sqrt α] [FinTest α] {β : Type}
+
+/-- the definition's inputs / per-sample losses, from the raw dataset -/
+def defX (hi lo eps : α) (D : Data α) (samples : List Nat) (m : Mode) (i j : Nat) : α :=
+  ((scaledInputs hi lo eps D samples m).getD i []).getD j 0
+def defL {t : Nat} (loss : List α → Vector α t → β) (hi lo eps : α) (D : Data α) (samples : List Nat) (m : Mode) (i : Nat) :
+    Vector α t → β := loss ((scaledTargets hi lo eps D samples m).getD i [])
+
+/-- what the callbacks read is the definition's data, position by position -/
+theorem callback_reads_def (hi lo eps : α) (D : Data α) (samples : List Nat) (it : Iter α)
+    (hinv : it.Inv hi lo eps D samples) (hf : it.Fresh) (hb : 0 < it.batch) (asg : List Nat)
+    (hasg : ValidAsg it.workers samples.length it.batch asg) (X0 : List (List α)) (hX : X0 = [] ∨ X0 = it.servedX D) :
+    ∀ i, i < samples.length →
+      targetOf (List.zipWith (mkServed X0 (it.servedT D)) (chunks samples.length it.batch) asg) i
+        = (scaledTargets hi lo eps D samples it.mode).getD i [] ∧
+      (X0 = it.servedX D →
+        inputsOf (List.zipWith (mkServed X0 (it.servedT D)) (chunks samples.length it.batch) asg) i
+          = defX hi lo eps D samples it.mode i) := by
+  intro i hlt
+  obtain ⟨h1, h2⟩ := servedRow_zip X0 (it.servedT D) _ asg 0 samples.length
+    (chunks_tiles samples.length it.batch hb) hasg.1 i (Nat.zero_le _) hlt
+  refine ⟨?_, ?_⟩
+  · unfold targetOf
+    rw [h2, servedT_eq hi lo eps D samples it hinv hf]
+  · intro hx
+    funext j
+    unfold inputsOf defX
+    rw [h1, hx, servedX_eq hi lo eps D samples it hinv hf]
+
+/-- **linear objective, end to end**: value `= mean_i loss(t_i, W x_i + b) + l1·mean|W| + (l2/2)·mean W²` and its gradient,
+    with `x_i`, `t_i` the scaled (missing → 0) flattened inputs / targets computed from the RAW dataset by the definition — for
+    every configuration history without stale cache, batch, schedule, worker count -/
+theorem linear_end_to_end {t s : Nat} (sqrt : α → α) (l1 l2 : α) (W : Nat → Nat → α) (b : Nat → α)
+    (loss : List α → Vector α t → α) (dloss : List α → Vector α t → Vector α t)
+    (hi lo eps : α) (D : Data α) (samples : List Nat) (it : Iter α)
+    (hinv : it.Inv hi lo eps D samples) (hf : it.Fresh) (hb : 0 < it.batch) (hw : 0 < it.workers) (asg : List Nat)
+    (hasg : ValidAsg it.workers samples.length it.batch asg) (hs0 : 0 < s) (ht0 : 0 < t)
+    (h1 : 0 ≤ l1) (h2 : 0 ≤ l2) (hs : sqrt l2 * sqrt l2 = l2) :
+    ∃ out, linearVGradIter (s := s) sqrt l1 l2 W b loss dloss it D asg = some out ∧
+      out.fx = linearDefValue t s l1 l2 W b (defL loss hi lo eps D samples it.mode) (defX hi lo eps D samples it.mode)
+        samples.length ∧
+      (∀ (k : Nat) (hk : k < t), out.gb[k]
+        = linearDefGradB t s W b (defL dloss hi lo eps D samples it.mode) (defX hi lo eps D samples it.mode)
+          samples.length ⟨k, hk⟩) ∧
+      (∀ (idx : Nat) (hi' : idx < t * s), out.gW[idx]
+        = linearDefGradW t s l1 l2 W b (defL dloss hi lo eps D samples it.mode) (defX hi lo eps D samples it.mode)
+          samples.length ⟨idx / s, idx_div_lt hi'⟩ (idx % s)) := by
+  unfold linearVGradIter
+  rw [if_neg (by omega), loopFT_eq hi lo eps D samples it hinv hb asg hasg]
+  simp only [hinv.hsamples]
+  have hrd := callback_reads_def hi lo eps D samples it hinv hf hb asg hasg (it.servedX D) (Or.inr rfl)
+  obtain ⟨out, hout, hfx⟩ := linear_value_eq_def (s := s) sqrt l1 l2 W b
+    (fun i => loss (targetOf (List.zipWith (mkServed (it.servedX D) (it.servedT D)) (chunks samples.length it.batch) asg) i))
+    (fun i => dloss (targetOf (List.zipWith (mkServed (it.servedX D) (it.servedT D)) (chunks samples.length it.batch) asg) i))
+    (inputsOf (List.zipWith (mkServed (it.servedX D) (it.servedT D)) (chunks samples.length it.batch) asg))
+    it.workers samples.length it.batch asg hw hb hasg h1 h2 hs
+  obtain ⟨out', hout', hgb, hgW⟩ := linear_grad_eq_def (s := s) sqrt l1 l2 W b
+    (fun i => loss (targetOf (List.zipWith (mkServed (it.servedX D) (it.servedT D)) (chunks samples.length it.batch) asg) i))
+    (fun i => dloss (targetOf (List.zipWith (mkServed (it.servedX D) (it.servedT D)) (chunks samples.length it.batch) asg) i))
+    (inputsOf (List.zipWith (mkServed (it.servedX D) (it.servedT D)) (chunks samples.length it.batch) asg))
+    it.workers samples.length it.batch asg hw hb hasg h1 h2
+  have heq : out' = out := by rw [hout] at hout'; exact (Option.some.inj hout').symm
+  subst heq
+  refine ⟨out', hout, ?_, ?_, ?_⟩
+  · rw [hfx]
+    apply linearDefValue_congr
+    intro i hi'
+    obtain ⟨ha, hb'⟩ := hrd i hi'
+    exact ⟨by simp only [defL, ha], hb' rfl⟩
+  · intro k hk
+    rw [hgb k hk]
+    apply linearDefGradB_congr
+    intro i hi'
+    obtain ⟨ha, hb'⟩ := hrd i hi'
+    exact ⟨by simp only [defL, ha], hb' rfl⟩
+  · intro idx hi'
+    rw [hgW idx hi']
+    apply linearDefGradW_congr
+    intro i hi''
+    obtain ⟨ha, hb'⟩ := hrd i hi''
+    exact ⟨by simp only [defL, ha], hb' rfl⟩
+
+/-- the constructor's asserts: no inputs or no targets — refused -/
+theorem linear_iter_none_of_empty {t s : Nat} (sqrt : α → α) (l1 l2 : α) (W : Nat → Nat → α) (b : Nat → α)
+    (loss : List α → Vector α t → α) (dloss : List α → Vector α t → Vector α t) (it : Iter α) (D : Data α) (asg : List Nat)
+    (h : s = 0 ∨ t = 0) : linearVGradIter (s := s) sqrt l1 l2 W b loss dloss it D asg = none := by
+  unfold linearVGradIter
+  rw [if_pos h]
+
+/-- **value-only call** (`vgrad(x)` without `gx`): skipping the gradient accumulation does not change the value — it is the
+    definition's value for every batch, schedule, worker count -/
+theorem linear_value_only_eq_def {t s : Nat} (sqrt : α → α) (l1 l2 : α) (W : Nat → Nat → α) (b : Nat → α)
+    (L : Nat → Vector α t → α) (x : Nat → Nat → α) (workers n batch : Nat) (asg : List Nat)
+    (hw : 0 < workers) (hb : 0 < batch) (hasg : ValidAsg workers n batch asg)
+    (h1 : 0 ≤ l1) (h2 : 0 ≤ l2) (hs : sqrt l2 * sqrt l2 = l2) :
+    linearValue (s := s) sqrt l1 l2 W b L x workers n batch asg = some (linearDefValue t s l1 l2 W b L x n) := by
+  unfold linearValue
+  rw [linearV_acc_canonical W b L x workers n batch asg hw hb hasg]
+  simp only [LinAcc.divN, lin_msum_vm1, List.map_map, Option.some.injEq]
+  unfold linearDefValue
+  have hdata : ((fun a : LinAcc α t s => a.vm1) ∘ linTermV W b L x) = fun i => L i (predict t s W b (x i)) := rfl
+  rw [hdata]
+  have hsq : (fun w : α => (sqrt l2 * w) * (sqrt l2 * w)) = fun w => l2 * (w * w) := by
+    funext w
+    calc (sqrt l2 * w) * (sqrt l2 * w) = (sqrt l2 * sqrt l2) * (w * w) := by ring
+      _ = l2 * (w * w) := by rw [hs]
+  rw [hsq, fsum_map_mul_left]
+  rcases h1.lt_or_eq with hl1 | hl1
+  · rcases h2.lt_or_eq with hl2 | hl2
+    · simp only [hl1, hl2, if_true]; ring
+    · subst hl2
+      simp only [hl1, if_true, lt_irrefl, if_false]; ring
+  · subst hl1
+    rcases h2.lt_or_eq with hl2 | hl2
+    · simp only [hl2, if_true, lt_irrefl, if_false]; ring
+    · subst hl2
+      simp only [lt_irrefl, if_false]; ring
+
+/-- **bias objective, end to end** -/
+theorem bias_end_to_end {t : Nat} (loss : List α → Vector α t → α) (dloss : List α → Vector α t → Vector α t)
+    (x : Vector α t) (hi lo eps : α) (D : Data α) (samples : List Nat) (it : Iter α)
+    (hinv : it.Inv hi lo eps D samples) (hf : it.Fresh) (hb : 0 < it.batch) (hw : 0 < it.workers) (asg : List Nat)
+    (hasg : ValidAsg it.workers samples.length it.batch asg) :
+    ∃ out, biasVGradIter loss dloss x it D asg = some out ∧
+      out.1 = biasDefValue (defL loss hi lo eps D samples it.mode) x samples.length ∧
+      ∀ (k : Nat) (hk : k < t), out.2[k] = biasDefGrad (defL dloss hi lo eps D samples it.mode) x samples.length ⟨k, hk⟩ := by
+  unfold biasVGradIter
+  rw [loopT_eq hi lo eps D samples it hinv hb asg hasg]
+  simp only [hinv.hsamples]
+  have hrd := callback_reads_def hi lo eps D samples it hinv hf hb asg hasg [] (Or.inl rfl)
+  obtain ⟨out, hout, hv, hg⟩ := bias_eq_def
+    (fun i => loss (targetOf (List.zipWith (mkServed [] (it.servedT D)) (chunks samples.length it.batch) asg) i))
+    (fun i => dloss (targetOf (List.zipWith (mkServed [] (it.servedT D)) (chunks samples.length it.batch) asg) i))
+    x it.workers samples.length it.batch asg hw hb hasg
+  refine ⟨out, hout, ?_, ?_⟩
+  · rw [hv]
+    exact meanOver_congr _ _ _ fun i hi' => by simp only [defL, (hrd i hi').1]
+  · intro k hk
+    rw [hg k hk]
+    exact meanOver_congr _ _ _ fun i hi' => by simp only [defL, (hrd i hi').1]
+
+/-- **scale objective, end to end** (`grp i`, `so i`, `wo i`: group and strong / weak learner outputs of the sample at
+    position `i`; unassigned samples are not scaled) -/
+theorem scale_end_to_end {t G : Nat} (loss : List α → Vector α t → α) (dloss : List α → Vector α t → Vector α t)
+    (x : Vector α G) (grp : Nat → Int) (so wo : Nat → Vector α t)
+    (hi lo eps : α) (D : Data α) (samples : List Nat) (it : Iter α)
+    (hinv : it.Inv hi lo eps D samples) (hf : it.Fresh) (hb : 0 < it.batch) (hw : 0 < it.workers) (asg : List Nat)
+    (hasg : ValidAsg it.workers samples.length it.batch asg) (hgrp : ∀ i, i < samples.length → grp i < (G : Int)) :
+    ∃ out, scaleVGradIter loss dloss x grp so wo it D asg = some out ∧
+      out.1 = scaleDefValue (defL loss hi lo eps D samples it.mode) x grp so wo samples.length ∧
+      ∀ (q : Nat) (hq : q < G), out.2[q] = scaleDefGrad (defL dloss hi lo eps D samples it.mode) x grp so wo samples.length q := by
+  unfold scaleVGradIter
+  rw [loopT_eq hi lo eps D samples it hinv hb asg hasg]
+  simp only [hinv.hsamples]
+  have hrd := callback_reads_def hi lo eps D samples it hinv hf hb asg hasg [] (Or.inl rfl)
+  obtain ⟨out, hout, hv, hg⟩ := scale_eq_def
+    (fun i => loss (targetOf (List.zipWith (mkServed [] (it.servedT D)) (chunks samples.length it.batch) asg) i))
+    (fun i => dloss (targetOf (List.zipWith (mkServed [] (it.servedT D)) (chunks samples.length it.batch) asg) i))
+    x grp so wo it.workers samples.length it.batch asg hw hb hasg hgrp
+  refine ⟨out, hout, ?_, ?_⟩
+  · rw [hv]
+    exact meanOver_congr _ _ _ fun i hi' => by simp only [defL, (hrd i hi').1]
+  · intro q hq
+    rw [hg q hq]
+    exact meanOver_congr _ _ _ fun i hi' => by simp only [defL, (hrd i hi').1]
+
+/-- **per-sample gradients, end to end** -/
+theorem grads_end_to_end {t : Nat} (loss : List α → Vector α t → α) (dloss : List α → Vector α t → Vector α t)
+    (o : Nat → Vector α t) (values0 : List α) (vgrads0 : List (Vector α t))
+    (hi lo eps : α) (D : Data α) (samples : List Nat) (it : Iter α)
+    (hinv : it.Inv hi lo eps D samples) (hf : it.Fresh) (hb : 0 < it.batch) (asg : List Nat)
+    (hasg : ValidAsg it.workers samples.length it.batch asg)
+    (hv : values0.length = samples.length) (hg : vgrads0.length = samples.length) :
+    gradsVGradIter loss dloss o values0 vgrads0 it D asg
+      = some (gradsDef (defL loss hi lo eps D samples it.mode) (defL dloss hi lo eps D samples it.mode) o samples.length) := by
+  unfold gradsVGradIter
+  rw [loopT_eq hi lo eps D samples it hinv hb asg hasg]
+  simp only [hinv.hsamples]
+  have hrd := callback_reads_def hi lo eps D samples it hinv hf hb asg hasg [] (Or.inl rfl)
+  rw [grads_eq_def _ _ o values0 vgrads0 samples.length it.batch hb hv hg]
+  unfold gradsDef
+  congr 2
+  · exact meanOver_congr _ _ _ fun i hi' => by simp only [defL, (hrd i hi').1]
+  · exact List.map_congr_left fun i hi' => by simp only [defL, (hrd i (List.mem_range.1 hi')).1]
+
+/-- **the property, from the raw dataset, with no hypothesis about the iterator's state**: build the iterator over `samples`
+    (statistics batches `≥ 1`), make the configuration calls in the library's order (`pre`: any `batch` / `scaling` calls,
+    then `post`: any `batch` / `cache_flatten` / `cache_targets` calls with any budgets and schedules), evaluate the linear
+    objective with any schedule: value and gradient are the definition's over `nan2zero (scale mode stats (flatten raw))` -/
+theorem linear_from_raw {t s : Nat} (sqrt : α → α) (l1 l2 : α) (W : Nat → Nat → α) (b : Nat → α)
+    (loss : List α → Vector α t → α) (dloss : List α → Vector α t → Vector α t)
+    (hi lo eps : α) (D : Data α) (samples : List Nat) (workers sbF sbT : Nat) (hF : 0 < sbF) (hT : 0 < sbT)
+    (hwf : D.WF samples) (junk : List α) (pre post : List Cfg) (it : Iter α)
+    (hpre : ∀ c ∈ pre, c.isCache = false) (hpost : ∀ c ∈ post, c.isScaling = false)
+    (hrun : Iter.run D junk (Iter.make hi lo eps D samples workers sbF sbT) (pre ++ post) = some it)
+    (hb : 0 < it.batch) (hw : 0 < it.workers) (asg : List Nat)
+    (hasg : ValidAsg it.workers samples.length it.batch asg) (hs0 : 0 < s) (ht0 : 0 < t)
+    (h1 : 0 ≤ l1) (h2 : 0 ≤ l2) (hs : sqrt l2 * sqrt l2 = l2) :
+    ∃ out, linearVGradIter (s := s) sqrt l1 l2 W b loss dloss it D asg = some out ∧
+      out.fx = linearDefValue t s l1 l2 W b (defL loss hi lo eps D samples it.mode) (defX hi lo eps D samples it.mode)
+        samples.length ∧
+      (∀ (k : Nat) (hk : k < t), out.gb[k]
+        = linearDefGradB t s W b (defL dloss hi lo eps D samples it.mode) (defX hi lo eps D samples it.mode)
+          samples.length ⟨k, hk⟩) ∧
+      (∀ (idx : Nat) (hi' : idx < t * s), out.gW[idx]
+        = linearDefGradW t s l1 l2 W b (defL dloss hi lo eps D samples it.mode) (defX hi lo eps D samples it.mode)
+          samples.length ⟨idx / s, idx_div_lt hi'⟩ (idx % s)) :=
+  linear_end_to_end sqrt l1 l2 W b loss dloss hi lo eps D samples it
+    (inv_run hi lo eps D samples junk _ _ it (inv_make hi lo eps D samples workers sbF sbT hF hT hwf) hrun)
+    (fresh_configure_then_cache hi lo eps D samples workers sbF sbT junk pre post it hpre hpost hrun)
+    hb hw asg hasg hs0 ht0 h1 h2 hs
+
+/-- the same for the three gradient-boosting objectives (values; the gradients follow in the same way from `*_end_to_end`) -/
+theorem gboost_from_raw {t G : Nat} (loss : List α → Vector α t → α) (dloss : List α → Vector α t → Vector α t)
+    (xb : Vector α t) (xs : Vector α G) (grp : Nat → Int) (so wo : Nat → Vector α t) (o : Nat → Vector α t)
+    (hi lo eps : α) (D : Data α) (samples : List Nat) (workers sbF sbT : Nat) (hF : 0 < sbF) (hT : 0 < sbT)
+    (hwf : D.WF samples) (junk : List α) (pre post : List Cfg) (it : Iter α)
+    (hpre : ∀ c ∈ pre, c.isCache = false) (hpost : ∀ c ∈ post, c.isScaling = false)
+    (hrun : Iter.run D junk (Iter.make hi lo eps D samples workers sbF sbT) (pre ++ post) = some it)
+    (hb : 0 < it.batch) (hw : 0 < it.workers) (asg : List Nat)
+    (hasg : ValidAsg it.workers samples.length it.batch asg) (hgrp : ∀ i, i < samples.length → grp i < (G : Int)) :
+    (∃ out, biasVGradIter loss dloss xb it D asg = some out ∧
+      out.1 = biasDefValue (defL loss hi lo eps D samples it.mode) xb samples.length) ∧
+    (∃ out, scaleVGradIter loss dloss xs grp so wo it D asg = some out ∧
+      out.1 = scaleDefValue (defL loss hi lo eps D samples it.mode) xs grp so wo samples.length) ∧
+    gradsVGradIter loss dloss o (List.replicate samples.length 0) (List.replicate samples.length (vzero t)) it D asg
+      = some (gradsDef (defL loss hi lo eps D samples it.mode) (defL dloss hi lo eps D samples it.mode) o samples.length) := by
+  have hinv := inv_run hi lo eps D samples junk _ _ it (inv_make hi lo eps D samples workers sbF sbT hF hT hwf) hrun
+  have hfr := fresh_configure_then_cache hi lo eps D samples workers sbF sbT junk pre post it hpre hpost hrun
+  refine ⟨?_, ?_, ?_⟩
+  · obtain ⟨out, h1, h2, _⟩ := bias_end_to_end loss dloss xb hi lo eps D samples it hinv hfr hb hw asg hasg
+    exact ⟨out, h1, h2⟩
+  · obtain ⟨out, h1, h2, _⟩ := scale_end_to_end loss dloss xs grp so wo hi lo eps D samples it hinv hfr hb hw asg hasg hgrp
+    exact ⟨out, h1, h2⟩
+  · exact grads_end_to_end loss dloss o _ _ hi lo eps D samples it hinv hfr hb asg hasg (by simp) (by simp)
 
 end NanoVerif.Objective
